@@ -73,7 +73,7 @@ var harnesses = map[string]*Harness{
 			"internal/telemetry/zz_verif_h1_test.go": "harness/h1tel/zz_verif_h1_test.go",
 		},
 		Instrument: []InstrSpec{
-			{File: "internal/telemetry/tcp.go", Opt: instrument.Options{Yield: true, MinLock: 6, MinSelect: 4, MinGo: 3}},
+			{File: "internal/telemetry/tcp.go", Opt: instrument.Options{Yield: true, GoBodyYield: true, MinLock: 6, MinSelect: 4, MinGo: 3}},
 			{File: "internal/telemetry/writer.go", Opt: instrument.Options{Yield: true, MinSelect: 1}},
 			{File: "internal/telemetry/sequencer.go", Opt: instrument.Options{Yield: true, MinLock: 4}},
 		},
@@ -144,7 +144,7 @@ var harnesses = map[string]*Harness{
 			{File: "internal/types/encode.go", Opt: instrument.Options{Yield: true, MapOrder: true, LoopYieldAll: true, MinMap: 1}},
 			// the state serialiser fans out over an errgroup: its goroutines must be simulated goroutines too (they
 			// draw encoders from the pool)
-			{File: "internal/utilities/merklization/state_serialize.go", Opt: instrument.Options{Yield: true, MapOrder: true, MinGo: 1}},
+			{File: "internal/utilities/merklization/state_serialize.go", Opt: instrument.Options{Yield: true, MapOrder: true, GoBodyYield: true, MinGo: 1}},
 			{File: "internal/utilities/merklization/state_key_constructor.go", Opt: instrument.Options{MapOrder: true}},
 		},
 		GoMaxProcs: 2,
